@@ -11,7 +11,8 @@ pub open spec fn is_pow2u(x: usize) -> bool { vstd::arithmetic::power2::is_pow2(
 
 // "built through the validating constructors": exactly the postconditions of BulletproofGens::new,
 // RangeParameters::init and RangeStatement::init (proved in units gens / ctors), nothing more.
-impl<P: Precomputable> BulletproofGens<P> {
+impl BulletproofGens<P> {
+    #[verifier::opaque]
     pub open spec fn shape_ok(&self) -> bool {
         &&& self.g_vec@.len() == self.party_capacity
         &&& self.h_vec@.len() == self.party_capacity
@@ -23,6 +24,7 @@ impl RangeParameters<P> {
     pub open spec fn spec_bit_length(&self) -> usize { self.bp_gens.gens_capacity }
     pub open spec fn spec_maxagg(&self) -> usize { self.bp_gens.party_capacity }
     pub open spec fn spec_ext(&self) -> ExtensionDegree { self.pc_gens.extension_degree }
+    #[verifier::opaque]
     pub open spec fn ctor_ok(&self) -> bool {
         &&& is_pow2u(self.bp_gens.gens_capacity)
         &&& self.bp_gens.gens_capacity <= 64
@@ -31,6 +33,7 @@ impl RangeParameters<P> {
     }
 }
 impl RangeStatement<P> {
+    #[verifier::opaque]
     pub open spec fn ctor_ok(&self) -> bool {
         &&& self.generators.ctor_ok()
         &&& is_pow2u(self.commitments@.len() as usize)
